@@ -39,15 +39,17 @@ def programs(length, tier):
     """all declaration programs of exactly `length` declarations.
     declaration = (keymode, tok) with keymode in {'k' named, 'a' auto key} and
     tok in free/fixed tokens or ('L', j): link to the key of declaration j < i (chains allowed)."""
-    free = ['U', 'N'] if tier == 'quick' else ['U', 'V', 'N']
-    fixed = ['Ff'] if tier == 'quick' else ['Fi', 'Ff', 'Fn']
+    # thorough: the full token alphabet up to length 4, the reduced one at length 5
+    reduced = tier == 'quick' or length >= 5
+    free = ['U', 'N'] if reduced else ['U', 'V', 'N']
+    fixed = ['Ff'] if reduced else ['Fi', 'Ff', 'Fn']
 
     def rec(i, prog):
         if i == length:
             yield tuple(prog)
             return
         toks = list(free) + list(fixed) + [('L', j) for j in range(i)]
-        if tier == 'quick' and i == 1:
+        if reduced and i == 1:
             toks = toks + ['Fi', 'Fn']          # every fixed-number type appears somewhere
         for km in ('k', 'a'):
             for t in toks:
@@ -370,7 +372,7 @@ def _shard_C15(tier, lengths, shard, n_shards):
             if len(sample) < 2 and L >= 3:
                 sample.append([list(map(str, d)) for d in prog])
             # every malformed declaration at every position (programs one shorter than the bound)
-            if L < max(lengths):
+            if L < max(lengths) and L <= 3:
                 for pos in range(L + 1):
                     for kind in MALFORMED:
                         if kind == 'auto-collides-with-explicit':
@@ -409,7 +411,7 @@ def run_C15(tier):
              '(distinct by construction; non-trivial: at least one declaration) evaluated on (d,) '
              'and (n,d) grids incl. 0 and 1-2^-53 against a reference interpreter, once declared completely '
              'before use and once with dimensionality()/transforms read after every declaration; plus every '
-             'malformed declaration kind at every position of every program of length <= {} and all '
+             'malformed declaration kind at every position of every program of length <= min({}, 3) and all '
              'auto-key collisions with k <= {}'.format(Lmax, Lmax - 1, 3 if tier == 'quick' else 5),
         programs=n_prog, malformed_programs=n_mal, samples=samples,
         assumptions=['distributions limited to uniform ranges and scipy.stats.norm; tuple '
